@@ -177,8 +177,17 @@ func init() {
 			nSeeds = len(W.Objs)
 			return nil
 		},
-		Cases: func(c *mon.Ctx) int { return nSeeds + c.Pick(30000, 400000) },
+		Cases: func(c *mon.Ctx) int { return nSeeds + c.Pick(30000, 400000) + len(pathShapes) },
 		RunCase: func(c *mon.Ctx, i int) {
+			if nG := nSeeds + c.Pick(30000, 400000); i >= nG {
+				// the return-path family (key type x signature algorithm x date lattice, RSA forms, name shapes ...): the
+				// pairs that need no "same content" construction (DSA prohibition, validity, name lengths, AIA) are judged
+				if o, how := pathShapeCase(c, i-nG); o != nil && o.Kind == corpus.Cert {
+					c20Judge(c, o, map[string]bool{}, "return-path family: "+how)
+					c.R.Count("return_path_family_judged", 1)
+				}
+				return
+			}
 			rng := c.Rng(i, 0)
 			if i < nSeeds {
 				// corpus rewritten: SAN -> IAN, issuer := subject (one signature bit flipped: never self-signed)
